@@ -81,7 +81,8 @@ def load(repo=None):
     repo = repo or C.REPO
     key = C.repo_hash(repo)
     os.makedirs(C.CACHE, exist_ok=True)
-    cache = os.path.join(C.CACHE, f"ast-{key}.pkl")
+    tag = hashlib.sha256(os.path.realpath(repo).encode()).hexdigest()[:6]
+    cache = os.path.join(C.CACHE, f"ast-{tag}-{key}.pkl")
     if os.path.exists(cache):
         return pickle.load(open(cache, "rb"))
     srcs = sorted(os.path.join(repo, "src", f) for f in os.listdir(os.path.join(repo, "src")) if f.endswith(".cpp"))
@@ -112,13 +113,13 @@ def load(repo=None):
     for m in meth:
         seen.setdefault((m["cls"], m["name"], m["type"]), m)
     out = dict(classes=cls_by_name, methods=list(seen.values()))
-    for f in os.listdir(C.CACHE):
-        if f.startswith("ast-") and f != os.path.basename(cache):
-            try:
-                os.remove(os.path.join(C.CACHE, f))
-            except OSError:
-                pass
     pickle.dump(out, open(cache, "wb"))
+    old = sorted((os.path.join(C.CACHE, f) for f in os.listdir(C.CACHE) if f.startswith("ast-")), key=os.path.getmtime)
+    for f in old[:-3]:
+        try:
+            os.remove(f)
+        except OSError:
+            pass
     return out
 
 
